@@ -239,6 +239,8 @@ def gen_history(rng, nsteps, forced_bad=None):
                 steps.append({"op": op, "dim": d, "i": i, "label": newl[i], "via": via})
             else:
                 newl = fresh_labels(rng, k, len(l), sim)
+                if rng.random() < 0.2:
+                    newl = list(l)          # the axis re-assigned with the labels it already has (an update repeated, or made to attach metadata)
                 st_ = {"op": op, "dim": d, "labels": newl, "kind": k, "form": rng.choice(['list', 'array', 'dict', 'callable']), "by_pos": rng.random() < 0.5}
                 ks = [q for q in keys_now if d in sim.vars[q]]
                 if op == 'relabel_attr' and ks and rng.random() < 0.5:
